@@ -100,7 +100,9 @@ def scenario(rng, root, idx):
         files[n] = fn
         with open(os.path.join(src, fn), 'w') as f:
             f.write(text)
-    kind = rng.choice(['healthy', 'healthy', 'broken', 'missing', 'unknown-request', 'borrow', 'borrow', 'two-sources', 'two-sources', 'borrow-dep', 'borrow-dep'])
+    kinds = ['healthy', 'borrow', 'broken', 'missing', 'unknown-request', 'healthy', 'two-sources', 'borrow-dep', 'borrow', 'two-sources', 'borrow-dep']
+    rng.choice(kinds)                       # (kept: the draw that used to pick the kind)
+    kind = kinds[idx % len(kinds)]          # every kind in every run, whatever the seed
     requested = [names[-1]] if rng.random() < 0.5 else list(names)
     if kind == 'broken':
         victim = rng.choice(names)
@@ -157,6 +159,12 @@ def scenario(rng, root, idx):
                  ('--generate-mib-texts', 0.3), ('--build-index', 0.15), ('--keep-texts-layout', 0.1)):
         if rng.random() < p and o not in opts:
             opts.append(o)
+    if kind == 'borrow' and (idx // len(kinds)) % 2 == 0:
+        # the all-or-nothing case with a borrowed module in it: another module is missing and errors are not ignored,
+        # so nothing is written - the borrowed copy included - and the report must say so
+        if 'ZZ-NOT-THERE-MIB' not in requested:
+            requested.append('ZZ-NOT-THERE-MIB')
+        opts = [o for o in opts if o not in ('--ignore-errors', '--dry-run', '--no-mib-writes', '--generate-mib-texts')]
     if fmt == 'pysnmp' and rng.random() < 0.5:
         opts.append('--no-python-compile')
     args = [MIBDUMP] + ['--mib-source=file://' + x for x in sources] + ['--mib-borrower=file://' + empty, '--destination-format=' + fmt,
@@ -196,7 +204,11 @@ def mibdump_failures(sc, rc, err, inp):
     want = set()
     if suffix and '--dry-run' not in sc['opts'] and '--no-mib-writes' not in sc['opts']:
         want = set(m + suffix for m in cats['compiled'] + cats['borrowed'])
+    # the index is an artefact of its own, asked for with --build-index: allowed exactly then, and never under --dry-run
     index = set(f for f in have if f.startswith('index'))
+    if index and ('--build-index' not in sc['opts'] or '--dry-run' in sc['opts']):
+        out.append({'key': 'files', 'what': 'destination holds %s although %s' % (sorted(index), 'this is a dry run' if '--dry-run' in sc['opts'] else 'no index was asked for'),
+                    'input': inp})
     if have - index != want:
         out.append({'key': 'files', 'what': 'destination holds %s, report says created/borrowed %s (options %s)' % (
             sorted(have - index), sorted(want), sc['opts']), 'input': inp})
@@ -382,14 +394,18 @@ def run(ctx):
                 srcargs = [os.path.dirname(cs['srcs'][k][0]) if as_dirs else cs['srcs'][k][0] for k in perm]
                 # the reporting switches change what is printed, never what is copied
                 flags = [[], ['--quiet'], ['--verbose'], ['--quiet', '--verbose'], ['--ignore-errors']][(i + pi) % 5]
-                jobs.append((cs, perm, dst, [MIBCOPY] + flags + ['--mib-source=file://' + cs['repo']] + srcargs + [dst]))
+                # the destination may be spelled in any way that names the directory
+                dst_arg = [dst, dst + os.sep, os.path.join(os.path.dirname(dst), '.', os.path.basename(dst)),
+                           os.path.join(dst, os.pardir, os.path.basename(dst))][(i + 2 * pi) % 4]
+                jobs.append((cs, perm, dst, [MIBCOPY] + flags + ['--mib-source=file://' + cs['repo']] + srcargs + [dst_arg]))
         with ThreadPoolExecutor(max_workers=12) as ex:
             couts = list(ex.map(lambda j: run_cmd(j[3]), jobs))
         for (cs, perm, dst, args), (rc, err) in zip(jobs, couts):
             res.case(('mibcopy', tuple(args[2:])), len(cs['srcs']) > 1)
             res.count('mibcopy-runs')
             inp = {'sources': [(os.path.basename(p), n, r, t) for p, n, r, t in cs['srcs']], 'order': list(perm), 'pre': cs['pre'],
-                   'flags': [a for a in args[1:] if a.startswith('--') and not a.startswith('--mib-source')]}
+                   'flags': [a for a in args[1:] if a.startswith('--') and not a.startswith('--mib-source')],
+                   'dst_spelling': args[-1][len(os.path.dirname(dst)):]}
             if rc != 0:
                 res.oracle_failures.append({'key': 'mibcopy-exit', 'what': 'mibcopy exited with %d: %s' % (rc, err[-300:]), 'input': inp})
                 continue
@@ -473,7 +489,10 @@ def replay(payload):
             pre = {n: tuple(v) for n, v in (inp.get('pre') or {}).items()}
             for n, (r, t) in pre.items():
                 open(os.path.join(dst, n), 'w').write(REV_MIB % {'name': n, 'ident': 'copyPre', 'n': 499, 'tag': t, 'rev': '%012dZ' % r})
-            rc, err = run_cmd([MIBCOPY] + list(inp.get('flags') or []) + ['--mib-source=file://' + BASE] + [files[k] for k in inp['order']] + [dst])
+            spell = inp.get('dst_spelling') or os.sep + 'dst'
+            dst_arg = root + spell.replace(os.sep + 'dst-', os.sep + 'dst', 1) if 'dst' in spell else dst
+            dst_arg = re.sub(r'dst\d+', 'dst', dst_arg)
+            rc, err = run_cmd([MIBCOPY] + list(inp.get('flags') or []) + ['--mib-source=file://' + BASE] + [files[k] for k in inp['order']] + [dst_arg])
             got = {f: tag_of(open(os.path.join(dst, f)).read()) for f in os.listdir(dst)}
             seen = {}
             for fn, name, rev, tag in inp['sources']:
